@@ -1161,22 +1161,18 @@ impl ServerSession {
         stream_key: String,
         mode: PublishMode,
     ) -> Result<Vec<ServerSessionResult>, ServerSessionError> {
-        match self.active_streams.get_mut(&stream_id) {
-            Some(active_stream) => {
-                active_stream.current_state = StreamState::Publishing {
-                    stream_key: stream_key.clone(),
-                    mode,
-                };
-            }
+        if !self.active_streams.contains_key(&stream_id) {
+            return Err(ServerSessionError::ActionAttemptedOnInactiveStream {
+                action: "publish".to_string(),
+                stream_id,
+            });
+        }
 
-            None => {
-                return Err(ServerSessionError::ActionAttemptedOnInactiveStream {
-                    action: "publish".to_string(),
-                    stream_id,
-                })
-            }
-        };
-
+        // Everything that can fail is done before the stream changes state and before anything
+        // is handed to the chunk serializer.  Otherwise a failure (e.g. a stream key too long to
+        // fit the status description) would leave the stream publishing although the request was
+        // not accepted, and the serializer's header compression state would refer to packets
+        // that were never returned.
         let description = format!(
             "Successfully started publishing on stream key {}",
             stream_key
@@ -1191,9 +1187,6 @@ impl ServerSession {
 
         let stream_begin_payload =
             stream_begin_message.into_message_payload(self.get_epoch(), stream_id)?;
-        let stream_begin_packet = self
-            .serializer
-            .serialize(&stream_begin_payload, false, false)?;
 
         let status_object =
             create_status_object("status", "NetStream.Publish.Start", description.as_ref());
@@ -1206,6 +1199,17 @@ impl ServerSession {
 
         let publish_start_payload =
             publish_start_message.into_message_payload(self.get_epoch(), stream_id)?;
+
+        if let Some(active_stream) = self.active_streams.get_mut(&stream_id) {
+            active_stream.current_state = StreamState::Publishing {
+                stream_key: stream_key.clone(),
+                mode,
+            };
+        }
+
+        let stream_begin_packet = self
+            .serializer
+            .serialize(&stream_begin_payload, false, false)?;
         let publish_packet = self
             .serializer
             .serialize(&publish_start_payload, false, false)?;
@@ -1221,19 +1225,11 @@ impl ServerSession {
         stream_id: u32,
         stream_key: String,
     ) -> Result<Vec<ServerSessionResult>, ServerSessionError> {
-        match self.active_streams.get_mut(&stream_id) {
-            Some(active_stream) => {
-                active_stream.current_state = StreamState::Playing {
-                    stream_key: stream_key.clone(),
-                };
-            }
-
-            None => {
-                return Err(ServerSessionError::ActionAttemptedOnInactiveStream {
-                    action: "play".to_string(),
-                    stream_id,
-                });
-            }
+        if !self.active_streams.contains_key(&stream_id) {
+            return Err(ServerSessionError::ActionAttemptedOnInactiveStream {
+                action: "play".to_string(),
+                stream_id,
+            });
         }
 
         let reset_status_object =
@@ -1283,24 +1279,30 @@ impl ServerSession {
             ],
         };
 
-        // The packets must be serialized in the same order they are sent out, as the chunk
-        // header of each packet may be compressed against the packet serialized before it.
+        // Build every payload (the part that can fail, e.g. for a stream key too long to fit
+        // the status description) before the stream changes state and before anything is handed
+        // to the chunk serializer, so a failed accept leaves no trace.
         let reset_payload = reset_message.into_message_payload(self.get_epoch(), stream_id)?;
-        let reset_packet = self.serializer.serialize(&reset_payload, false, false)?;
-
         let stream_begin_payload =
             stream_begin_message.into_message_payload(self.get_epoch(), stream_id)?;
+        let start_payload = start_message.into_message_payload(self.get_epoch(), stream_id)?;
+        let data1_payload = data1_message.into_message_payload(self.get_epoch(), stream_id)?;
+        let data2_payload = data2_message.into_message_payload(self.get_epoch(), stream_id)?;
+
+        if let Some(active_stream) = self.active_streams.get_mut(&stream_id) {
+            active_stream.current_state = StreamState::Playing {
+                stream_key: stream_key.clone(),
+            };
+        }
+
+        // The packets must be serialized in the same order they are sent out, as the chunk
+        // header of each packet may be compressed against the packet serialized before it.
+        let reset_packet = self.serializer.serialize(&reset_payload, false, false)?;
         let stream_begin_packet = self
             .serializer
             .serialize(&stream_begin_payload, false, false)?;
-
-        let start_payload = start_message.into_message_payload(self.get_epoch(), stream_id)?;
         let start_packet = self.serializer.serialize(&start_payload, false, false)?;
-
-        let data1_payload = data1_message.into_message_payload(self.get_epoch(), stream_id)?;
         let data1_packet = self.serializer.serialize(&data1_payload, false, false)?;
-
-        let data2_payload = data2_message.into_message_payload(self.get_epoch(), stream_id)?;
         let data2_packet = self.serializer.serialize(&data2_payload, false, false)?;
 
         Ok(vec![
